@@ -6,6 +6,7 @@ import (
 	"fmt"
 	"io"
 	"os"
+	"runtime/debug"
 	"strconv"
 	"strings"
 	"testing"
@@ -47,6 +48,7 @@ import (
 func TestMain(m *testing.M) {
 	klog.SetOutput(io.Discard)
 	klog.LogToStderr(false)
+	debug.SetGCPercent(400) // the fake API server is JSON round trips; trade memory for time
 	vlib.Main(m)
 }
 
@@ -409,19 +411,24 @@ func canaryDeploymentFor(release *v1beta1.BatchRelease, stable *apps.Deployment)
 
 // env is one workload under one control plane on its own fake API server.
 type env struct {
-	k       Kind
-	n       int32
-	cli     client.Client
-	pods    bool // model readiness with real Pod / ReplicaSet objects where the control plane counts them
-	initial []client.Object
+	k    Kind
+	n    int32
+	cli  client.Client
+	pods bool // model readiness with real Pod objects where the control plane counts them
+	// the knob-carrying object (the workload; the canary Deployment for canary style) as it was
+	// right after Initialize, and the resourceVersion the harness last saw it with
+	initial client.Object
+	rv      string
 	updated int // updated pods of the (fully complied) workload so far
-	rec     record.EventRecorder
+	// knob as last seen by observe (a printable form of the update setting), for reporting
+	lastKnob, initialKnob string
+	rec                   record.EventRecorder
 }
 
 type discardRecorder struct{}
 
-func (discardRecorder) Event(runtime.Object, string, string, string)                    {}
-func (discardRecorder) Eventf(runtime.Object, string, string, string, ...interface{})  {}
+func (discardRecorder) Event(runtime.Object, string, string, string)                  {}
+func (discardRecorder) Eventf(runtime.Object, string, string, string, ...interface{}) {}
 func (discardRecorder) AnnotatedEventf(runtime.Object, map[string]string, string, string, string, ...interface{}) {
 }
 
@@ -429,6 +436,27 @@ func must(err error, what string) {
 	if err != nil {
 		panic(fmt.Sprintf("harness: %s: %v", what, err))
 	}
+}
+
+func (e *env) knobName() string {
+	if e.k == CanaryDeployment {
+		return wname + "-canary"
+	}
+	return wname
+}
+
+func (e *env) emptyKnobObject() client.Object {
+	switch e.k {
+	case PartCloneSet, BGCloneSet:
+		return &kruisev1alpha1.CloneSet{}
+	case PartStatefulSet:
+		return &apps.StatefulSet{}
+	case PartAdvancedStatefulSet:
+		return &kruisev1beta1.StatefulSet{}
+	case PartDaemonSet:
+		return &kruisev1alpha1.DaemonSet{}
+	}
+	return &apps.Deployment{}
 }
 
 // newEnv creates the workload and lets the REAL control plane claim it (Initialize).
@@ -456,32 +484,38 @@ func newEnv(k Kind, n int32, pods bool) *env {
 		must(c.Initialize(release), "Initialize")
 	}
 	e.observe()
+	e.initialKnob = e.lastKnob
 	// remember the claimed state so that reset() can return to it
-	for _, o := range objs {
-		cur := o.DeepCopyObject().(client.Object)
-		must(e.cli.Get(context.TODO(), client.ObjectKeyFromObject(o), cur), "get after Initialize")
-		e.initial = append(e.initial, cur)
-	}
+	e.initial = e.emptyKnobObject()
+	e.get(e.initial, e.knobName())
+	e.rv = e.initial.GetResourceVersion()
 	return e
 }
 
-// reset puts every object back to its state right after Initialize (new release, nothing updated).
+// reset puts the knob-carrying object back to its state right after Initialize (a new release,
+// nothing updated yet). All other objects are never written after Initialize, except Pods and the
+// new ReplicaSet, which the next observe brings in line.
 func (e *env) reset() {
-	for _, o := range e.initial {
-		cur := o.DeepCopyObject().(client.Object)
-		must(e.cli.Get(context.TODO(), client.ObjectKeyFromObject(o), cur), "get for reset")
-		w := o.DeepCopyObject().(client.Object)
+	w := e.initial.DeepCopyObject().(client.Object)
+	w.SetResourceVersion(e.rv)
+	if err := e.cli.Update(context.TODO(), w); err != nil {
+		cur := e.emptyKnobObject()
+		e.get(cur, e.knobName())
+		w = e.initial.DeepCopyObject().(client.Object)
 		w.SetResourceVersion(cur.GetResourceVersion())
 		must(e.cli.Update(context.TODO(), w), "reset update")
 	}
-	if e.pods {
-		must(e.cli.DeleteAllOf(context.TODO(), &corev1.Pod{}, client.InNamespace(ns)), "delete pods")
-		if e.k == BGDeployment {
-			rs := &apps.ReplicaSet{ObjectMeta: metav1.ObjectMeta{Namespace: ns, Name: wname + "-new"}}
-			_ = client.IgnoreNotFound(e.cli.Delete(context.TODO(), rs))
-		}
-	}
+	e.rv = w.GetResourceVersion()
 	e.updated = 0
+	e.lastKnob = e.initialKnob
+	if e.k.readinessCountsPods() {
+		e.syncPods(e.podOwner())
+	}
+}
+
+func (e *env) podOwner() metav1.OwnerReference {
+	gvk := e.k.gvk()
+	return metav1.OwnerReference{APIVersion: gvk.GroupVersion().String(), Kind: gvk.Kind, Name: wname, UID: wUID, Controller: pointer.Bool(true)}
 }
 
 func (e *env) partController() partitionstyle.Interface {
@@ -570,11 +604,16 @@ func (e *env) get(o client.Object, name string) {
 // knob reads the update setting back from the API object and restores, by the knob's own
 // semantics, how many pods a fully complying workload controller runs on the new revision.
 func (e *env) knob() (string, int) {
+	o := e.emptyKnobObject()
+	e.get(o, e.knobName())
+	return e.knobOf(o)
+}
+
+func (e *env) knobOf(obj client.Object) (string, int) {
 	n := int(e.n)
 	switch e.k {
 	case PartCloneSet:
-		o := &kruisev1alpha1.CloneSet{}
-		e.get(o, wname)
+		o := obj.(*kruisev1alpha1.CloneSet)
 		if o.Spec.UpdateStrategy.Paused {
 			return "paused", 0
 		}
@@ -586,8 +625,7 @@ func (e *env) knob() (string, int) {
 	case BGCloneSet:
 		// blue-green: partition removed, maxUnavailable 0, pods never become available
 		// (minReadySeconds), so exactly min(maxSurge rounded up, n) new pods are surged.
-		o := &kruisev1alpha1.CloneSet{}
-		e.get(o, wname)
+		o := obj.(*kruisev1alpha1.CloneSet)
 		us := o.Spec.UpdateStrategy
 		if us.Paused {
 			return "paused", 0
@@ -601,16 +639,10 @@ func (e *env) knob() (string, int) {
 		return "maxSurge=" + us.MaxSurge.String(), clamp(scaledUp(*us.MaxSurge, n), 0, n)
 	case PartStatefulSet, PartAdvancedStatefulSet:
 		// ordered update: pods with ordinal >= partition run the new revision
-		var o client.Object = &apps.StatefulSet{}
-		if e.k == PartAdvancedStatefulSet {
-			o = &kruisev1beta1.StatefulSet{}
-		}
-		e.get(o, wname)
-		p := int(util.GetStatefulSetPartition(o))
+		p := int(util.GetStatefulSetPartition(obj))
 		return fmt.Sprintf("partition=%d", p), clamp(n-p, 0, n)
 	case PartDaemonSet:
-		o := &kruisev1alpha1.DaemonSet{}
-		e.get(o, wname)
+		o := obj.(*kruisev1alpha1.DaemonSet)
 		ru := o.Spec.UpdateStrategy.RollingUpdate
 		if ru == nil || ru.Partition == nil {
 			return "partition=nil", n
@@ -620,8 +652,7 @@ func (e *env) knob() (string, int) {
 		// the Advanced Deployment controller of this repository scales the new ReplicaSet up to the
 		// partition (an int-or-percent NUMBER OF NEW PODS, percentage rounded up); for a percentage
 		// below 100% it keeps one old pod (n > 1).
-		o := &apps.Deployment{}
-		e.get(o, wname)
+		o := obj.(*apps.Deployment)
 		st := util.GetDeploymentStrategy(o)
 		u := clamp(scaledUp(st.Partition, n), 0, n)
 		if n > 1 && st.Partition.Type == intstr.String && st.Partition.StrVal != "100%" {
@@ -632,14 +663,12 @@ func (e *env) knob() (string, int) {
 		}
 		return "partition=" + st.Partition.String(), u
 	case CanaryDeployment:
-		o := &apps.Deployment{}
-		e.get(o, wname+"-canary")
+		o := obj.(*apps.Deployment)
 		return fmt.Sprintf("canaryReplicas=%d", *o.Spec.Replicas), int(*o.Spec.Replicas)
 	case BGDeployment:
 		// native rolling update with maxUnavailable 0 and pods that never become available: the new
 		// ReplicaSet grows to min(maxSurge rounded up, n).
-		o := &apps.Deployment{}
-		e.get(o, wname)
+		o := obj.(*apps.Deployment)
 		if o.Spec.Paused {
 			return "paused", 0
 		}
@@ -666,89 +695,79 @@ func readyPod(name string, rev string, owner metav1.OwnerReference) *corev1.Pod 
 // knob and whose pods are all ready (workloads never move pods back to the old revision by
 // themselves, hence the running maximum).
 func (e *env) observe() {
-	_, u := e.knob()
+	obj := e.emptyKnobObject()
+	e.get(obj, e.knobName())
+	ks, u := e.knobOf(obj)
+	e.lastKnob = ks
 	if u > e.updated {
 		e.updated = u
 	}
 	up := int32(e.updated)
 	ctx := context.TODO()
-	switch e.k {
-	case PartCloneSet, BGCloneSet:
-		o := &kruisev1alpha1.CloneSet{}
-		e.get(o, wname)
+	switch o := obj.(type) {
+	case *kruisev1alpha1.CloneSet:
 		o.Status.ObservedGeneration = o.Generation
 		o.Status.UpdatedReplicas, o.Status.UpdatedReadyReplicas = up, up
 		o.Status.Replicas, o.Status.ReadyReplicas, o.Status.AvailableReplicas = e.n, e.n, e.n
 		if e.k == BGCloneSet {
 			o.Status.Replicas, o.Status.ReadyReplicas, o.Status.AvailableReplicas = e.n+up, e.n+up, e.n
 		}
-		must(e.cli.Update(ctx, o), "status update")
-	case PartStatefulSet:
-		o := &apps.StatefulSet{}
-		e.get(o, wname)
+	case *apps.StatefulSet:
 		o.Status.ObservedGeneration = o.Generation
 		o.Status.UpdatedReplicas = up
-		must(e.cli.Update(ctx, o), "status update")
-		e.syncPods(metav1.OwnerReference{APIVersion: "apps/v1", Kind: "StatefulSet", Name: wname, UID: wUID, Controller: pointer.Bool(true)})
-	case PartAdvancedStatefulSet:
-		o := &kruisev1beta1.StatefulSet{}
-		e.get(o, wname)
+	case *kruisev1beta1.StatefulSet:
 		o.Status.ObservedGeneration = o.Generation
 		o.Status.UpdatedReplicas = up
-		must(e.cli.Update(ctx, o), "status update")
-		e.syncPods(metav1.OwnerReference{APIVersion: kruisev1beta1.GroupVersion.String(), Kind: "StatefulSet", Name: wname, UID: wUID, Controller: pointer.Bool(true)})
-	case PartDaemonSet:
-		o := &kruisev1alpha1.DaemonSet{}
-		e.get(o, wname)
+	case *kruisev1alpha1.DaemonSet:
 		o.Status.ObservedGeneration = o.Generation
 		o.Status.UpdatedNumberScheduled = up
-		must(e.cli.Update(ctx, o), "status update")
-		e.syncPods(metav1.OwnerReference{APIVersion: kruisev1alpha1.GroupVersion.String(), Kind: "DaemonSet", Name: wname, UID: wUID, Controller: pointer.Bool(true)})
-	case PartDeployment:
-		o := &apps.Deployment{}
-		e.get(o, wname)
+	case *apps.Deployment:
 		o.Status.ObservedGeneration = o.Generation
-		o.Status.UpdatedReplicas = up
-		extra, _ := json.Marshal(v1alpha1.DeploymentExtraStatus{UpdatedReadyReplicas: up, ExpectedUpdatedReplicas: up})
-		if o.Annotations == nil {
-			o.Annotations = map[string]string{}
+		switch e.k {
+		case PartDeployment:
+			o.Status.UpdatedReplicas = up
+			extra, _ := json.Marshal(v1alpha1.DeploymentExtraStatus{UpdatedReadyReplicas: up, ExpectedUpdatedReplicas: up})
+			if o.Annotations == nil {
+				o.Annotations = map[string]string{}
+			}
+			o.Annotations[v1alpha1.DeploymentExtraStatusAnnotation] = string(extra)
+		case CanaryDeployment:
+			o.Status.Replicas, o.Status.UpdatedReplicas, o.Status.ReadyReplicas, o.Status.AvailableReplicas = up, up, up, up
+		case BGDeployment:
+			o.Status.UpdatedReplicas = up
+			o.Status.Replicas, o.Status.ReadyReplicas = e.n+up, e.n+up
 		}
-		o.Annotations[v1alpha1.DeploymentExtraStatusAnnotation] = string(extra)
-		must(e.cli.Update(ctx, o), "status update")
-	case CanaryDeployment:
-		o := &apps.Deployment{}
-		e.get(o, wname+"-canary")
-		o.Status.ObservedGeneration = o.Generation
-		o.Status.Replicas, o.Status.UpdatedReplicas, o.Status.ReadyReplicas, o.Status.AvailableReplicas = up, up, up, up
-		must(e.cli.Update(ctx, o), "status update")
-	case BGDeployment:
-		o := &apps.Deployment{}
-		e.get(o, wname)
-		o.Status.ObservedGeneration = o.Generation
-		o.Status.UpdatedReplicas = up
-		o.Status.Replicas, o.Status.ReadyReplicas = e.n+up, e.n+up
-		must(e.cli.Update(ctx, o), "status update")
-		// the Deployment controller's new ReplicaSet (exists as soon as the Deployment is not paused)
-		if !o.Spec.Paused {
-			rs := &apps.ReplicaSet{}
-			err := e.cli.Get(ctx, types.NamespacedName{Namespace: ns, Name: wname + "-new"}, rs)
-			if err != nil {
-				tpl := *o.Spec.Template.DeepCopy()
-				tpl.Labels[apps.DefaultDeploymentUniqueLabelKey] = "new"
-				rs = &apps.ReplicaSet{
-					TypeMeta: metav1.TypeMeta{APIVersion: "apps/v1", Kind: "ReplicaSet"},
-					ObjectMeta: metav1.ObjectMeta{Name: wname + "-new", Namespace: ns, UID: "uid-rs-new", Labels: tpl.Labels,
-						CreationTimestamp: metav1.Unix(3000, 0),
-						OwnerReferences:   []metav1.OwnerReference{*metav1.NewControllerRef(o, util.ControllerKindDep)}},
-					Spec:   apps.ReplicaSetSpec{Replicas: pointer.Int32(up), Selector: selector(), Template: tpl, MinReadySeconds: o.Spec.MinReadySeconds},
-					Status: apps.ReplicaSetStatus{Replicas: up, ReadyReplicas: up, ObservedGeneration: 1},
-				}
-				must(e.cli.Create(ctx, rs), "create new rs")
-			} else {
+	}
+	must(e.cli.Update(ctx, obj), "status update")
+	e.rv = obj.GetResourceVersion()
+	if e.k.readinessCountsPods() {
+		e.syncPods(e.podOwner())
+	}
+	if e.k == BGDeployment {
+		// the Deployment controller's new ReplicaSet: created once the Deployment is not paused; its
+		// pods are ready (never available: minReadySeconds)
+		d := obj.(*apps.Deployment)
+		rs := &apps.ReplicaSet{}
+		err := e.cli.Get(ctx, types.NamespacedName{Namespace: ns, Name: wname + "-new"}, rs)
+		switch {
+		case err == nil:
+			if rs.Status.ReadyReplicas != up {
 				rs.Spec.Replicas = pointer.Int32(up)
 				rs.Status.Replicas, rs.Status.ReadyReplicas = up, up
 				must(e.cli.Update(ctx, rs), "update new rs")
 			}
+		case !d.Spec.Paused:
+			tpl := *d.Spec.Template.DeepCopy()
+			tpl.Labels[apps.DefaultDeploymentUniqueLabelKey] = "new"
+			rs = &apps.ReplicaSet{
+				TypeMeta: metav1.TypeMeta{APIVersion: "apps/v1", Kind: "ReplicaSet"},
+				ObjectMeta: metav1.ObjectMeta{Name: wname + "-new", Namespace: ns, UID: "uid-rs-new", Labels: tpl.Labels,
+					CreationTimestamp: metav1.Unix(3000, 0),
+					OwnerReferences:   []metav1.OwnerReference{*metav1.NewControllerRef(d, util.ControllerKindDep)}},
+				Spec:   apps.ReplicaSetSpec{Replicas: pointer.Int32(up), Selector: selector(), Template: tpl, MinReadySeconds: d.Spec.MinReadySeconds},
+				Status: apps.ReplicaSetStatus{Replicas: up, ReadyReplicas: up, ObservedGeneration: 1},
+			}
+			must(e.cli.Create(ctx, rs), "create new rs")
 		}
 	}
 }
